@@ -24,19 +24,26 @@ func TestMain(m *testing.M) {
 		"A case is a schedule run against a fresh eventbus.NewBus() inside a synctest bubble: 3 event types (each stateful or not), 1-4 emitters, "+
 			"1-5 subscriptions (single type / several types / wildcard; BufSize 0,1,2,16 or default; reading eagerly, or only when granted N reads / "+
 			"resumed), 1-3 emit goroutines, and steps at increasing virtual instants; all actions of a step (Emit bursts, Subscribe, "+
-			"Subscription.Close (also twice), resume/grant reads, Emitter creation/Close) start together and race for real; the case ends with "+
+			"Subscription.Close (also twice), resume/grant reads, Emitter creation/Close (also twice), calls the bus has to refuse) start together and race "+
+			"for real. Refused calls (in 40 % of the schedules, each any number of times, also during the final round): Subscribe with an offending element at a "+
+			"generated position of a generated list of 0-3 well-formed types (a non-pointer: int, event value instead of pointer, string, empty struct; or the "+
+			"wildcard inside a list), Subscribe / Emitter with an option that returns an error (before or after BufSize / Stateful), Emitter for a non-pointer or "+
+			"for the wildcard; they create no subscriber, so the oracles below apply to the rest of the history unchanged. The case ends with "+
 			"every reader resumed, then a last round of emits racing with the concurrent Close of everything. Events carry (emitter, number); "+
 			"every call is bracketed by logical stamps. Oracles at every quiescence point: completeness for drained subscribers, queued-count for "+
 			"slow ones (blocks, never drops), no duplicates, per-emitter order, gap-free prefix before Close was called, retained event first and "+
 			"most recent for stateful types, nothing of a closed subscription / failed Emit / later Emit delivered, closed channel after Close, "+
-			"every blocked Emit justified by a full unread subscriber and released by read or Close, every other call returned, bubble exits. "+
+			"every blocked Emit justified by a full unread subscriber (one that Subscribe returned: never a refused call) and released by read or Close, "+
+			"every other call (refused ones included) returned, bubble exits. "+
 			"NON-TRIVIAL = a Subscription.Close or Emitter.Close overlapped an Emit that could reach it (blocked or in flight), or a Subscribe to a "+
-			"stateful type that already had an event overlapped an Emit of that type. DISTINCT = distinct (specification, executed step trace).",
+			"stateful type that already had an event overlapped an Emit of that type, or a refused Subscribe named well-formed types before its offending "+
+			"element and more events of such a type than the buffer it asked for were emitted afterwards. DISTINCT = distinct (specification, executed step trace).",
 		"interleavings inside one virtual instant come from the Go scheduler (plus generated runtime.Gosched counts); they are sampled, not enumerated",
 		"actions that could leave a goroutine waiting on a bus mutex behind an emit stalled past the end of the step are not scheduled (a mutex wait is invisible to synctest); a stall is always resolvable within a step by resume/close",
 		"one goroutine at a time uses a given emitter for a burst only when no other burst of it is unfinished on the same emit goroutine; order is asserted between events of one emitter whose Emit calls did not overlap",
 		"every emitter of a stateful type is created with eventbus.Stateful; a retained event is demanded only while an emitter or typed subscription of the type existed continuously since that event",
 		"a bubble that cannot reach quiescence within the harness watchdog is reported as a violation (mutex deadlock of the bus)",
+		"refused calls are the ones the API documents as errors (element that is not a pointer, wildcard inside a list, option error, Emitter for a non-pointer / the wildcard); nil elements (the bus panics on them) and lists naming one type twice (accepted by the bus) are not generated; a refused call is planned as a transient user of the locks the accepted call would take",
 	)
 	hx.Main(m)
 }
@@ -51,22 +58,23 @@ type profile struct {
 	minActs     int
 	maxActs     int
 	gaps        []int // candidate gaps (ms)
-	kinds       []int // weights: emit sub closeSub resume grant closeEm newEm
+	kinds       []int // weights: emit sub closeSub resume grant closeEm newEm bad
+	badPct      int   // share of scenarios that contain calls the bus has to refuse
 	eagerPct    int
 	bufs        []int
 	bursts      []int
 	preAllSubs  bool
 }
 
-var kindNames = []string{"emit", "sub", "closeSub", "resume", "grant", "closeEm", "newEm"}
+var kindNames = []string{"emit", "sub", "closeSub", "resume", "grant", "closeEm", "newEm", "bad"}
 
 var (
 	profGeneral = profile{name: "general", maxSteps: 6, minActs: 1, maxActs: 5, gaps: []int{0, 1, 1, 600, 1100},
-		kinds: []int{42, 11, 10, 7, 10, 7, 6}, eagerPct: 45, bufs: []int{0, 0, 1, 1, 2, 2, 16, -1}, bursts: []int{1, 1, 2, 3, 3, 5, 18}}
+		kinds: []int{42, 11, 10, 7, 10, 7, 6, 12}, badPct: 40, eagerPct: 45, bufs: []int{0, 0, 1, 1, 2, 2, 16, -1}, bursts: []int{1, 1, 2, 3, 3, 5, 18}}
 	profRaces = profile{name: "races", maxSteps: 3, minActs: 3, maxActs: 9, gaps: []int{0, 0, 1},
-		kinds: []int{40, 18, 16, 4, 4, 9, 9}, eagerPct: 75, bufs: []int{0, 1, 2, 16, 16, -1}, bursts: []int{1, 2, 3, 4, 6}}
+		kinds: []int{40, 18, 16, 4, 4, 9, 9, 14}, badPct: 40, eagerPct: 75, bufs: []int{0, 1, 2, 16, 16, -1}, bursts: []int{1, 2, 3, 4, 6}}
 	profStateful = profile{name: "stateful", allStateful: true, maxSteps: 5, minActs: 1, maxActs: 5, gaps: []int{0, 1, 1, 1100},
-		kinds: []int{45, 22, 8, 6, 8, 5, 6}, eagerPct: 60, bufs: []int{0, 1, 2, 2, 16, -1}, bursts: []int{1, 1, 2, 3}}
+		kinds: []int{45, 22, 8, 6, 8, 5, 6, 12}, badPct: 40, eagerPct: 60, bufs: []int{0, 1, 2, 2, 16, -1}, bursts: []int{1, 1, 2, 3}}
 )
 
 func weighted(rt *rapid.T, label string, w []int) int {
@@ -82,6 +90,64 @@ func weighted(rt *rapid.T, label string, w []int) int {
 		r -= x
 	}
 	return 0
+}
+
+// genBad draws one call the bus has to refuse (see badSpec): the list shape, the offending
+// element and its position are all generated.
+func genBad(rt *rapid.T, p profile, live []int) badSpec {
+	b := badSpec{Buf: rapid.SampledFrom(p.bufs).Draw(rt, "badBuf")}
+	// well-formed elements: a prefix of a permutation of the types, rotated so that a type
+	// with an emitter (one that will see traffic) tends to come first
+	types := func(lo, hi int) []int {
+		perm := rapid.Permutation([]int{0, 1, 2}).Draw(rt, "badTypes")
+		n := rapid.IntRange(lo, hi).Draw(rt, "badN")
+		if n > 0 && rapid.IntRange(0, 2).Draw(rt, "badLiveFirst") > 0 {
+			first := rapid.SampledFrom(live).Draw(rt, "badFirst")
+			for i, t := range perm {
+				if t == first {
+					perm[0], perm[i] = perm[i], perm[0]
+				}
+			}
+		}
+		return append([]int{}, perm[:n]...)
+	}
+	if rapid.IntRange(0, 3).Draw(rt, "badCall") > 0 {
+		b.Call = "sub"
+		switch weighted(rt, "badWhy", []int{60, 20, 20}) {
+		case 0:
+			b.Why = "nonptr"
+			b.Types = types(0, 3)
+			b.Pos = rapid.IntRange(0, len(b.Types)).Draw(rt, "badPos")
+			b.Val = rapid.IntRange(0, 3).Draw(rt, "badVal")
+			b.Bare = len(b.Types) == 0 && rapid.Bool().Draw(rt, "badBare")
+		case 1:
+			b.Why = "wildcard"
+			b.Types = types(1, 3)
+			b.Pos = rapid.IntRange(0, len(b.Types)).Draw(rt, "badPos")
+		default:
+			b.Why = "opt"
+			b.OptFirst = rapid.Bool().Draw(rt, "badOptFirst")
+			if b.Wild = rapid.IntRange(0, 3).Draw(rt, "badWild") == 0; !b.Wild {
+				b.Types = types(1, 3)
+				b.Bare = len(b.Types) == 1 && rapid.Bool().Draw(rt, "badBare")
+			}
+		}
+		return b
+	}
+	b.Call = "em"
+	b.Types = []int{rapid.IntRange(0, nTypes-1).Draw(rt, "badEmType")}
+	switch weighted(rt, "badWhy", []int{40, 20, 40}) {
+	case 0:
+		b.Why = "nonptr"
+		b.Val = rapid.IntRange(0, 3).Draw(rt, "badVal")
+	case 1:
+		b.Why = "wildcard"
+	default:
+		b.Why = "opt"
+		b.OptFirst = rapid.Bool().Draw(rt, "badOptFirst")
+	}
+	b.Stateful = rapid.Bool().Draw(rt, "badStatefulOpt")
+	return b
 }
 
 func genScenario(rt *rapid.T, p profile) *scenario {
@@ -125,6 +191,11 @@ func genScenario(rt *rapid.T, p profile) *scenario {
 			sp.Kind = "wild"
 		}
 		sc.Subs = append(sc.Subs, sp)
+	}
+	if rapid.IntRange(0, 99).Draw(rt, "withBad") < p.badPct {
+		for i, n := 0, rapid.IntRange(1, 2).Draw(rt, "bads"); i < n; i++ {
+			sc.Bad = append(sc.Bad, genBad(rt, p, live))
+		}
 	}
 	sc.PreEms = rapid.IntRange(1, nEm).Draw(rt, "preEms")
 	sc.PreSubs = rapid.IntRange(0, nSub).Draw(rt, "preSubs")
@@ -196,11 +267,17 @@ func genScenario(rt *rapid.T, p profile) *scenario {
 				if a.E = sel(func(i int) bool { return emReadyAt[i] <= si && !emClosed[i] }, nEm, "emClose"); a.E >= 0 {
 					aimed = true
 					emClosed[a.E] = true
+					a.Twice = rapid.IntRange(0, 4).Draw(rt, "twiceEm") == 0
 				}
 			case "newEm":
 				if a.E = sel(func(i int) bool { return emReadyAt[i] == 1<<30 }, nEm, "emNew"); a.E >= 0 {
 					aimed = true
 					emReadyAt[a.E] = si + 1
+				}
+			case "bad":
+				if len(sc.Bad) > 0 {
+					aimed = true
+					a.B = rapid.IntRange(0, len(sc.Bad)-1).Draw(rt, "badWhich")
 				}
 			}
 			if !aimed {
@@ -229,6 +306,10 @@ func genScenario(rt *rapid.T, p profile) *scenario {
 		sc.FinalBursts = append(sc.FinalBursts, action{K: "emit", W: w, E: rapid.IntRange(0, nEm-1).Draw(rt, "finalEm"),
 			N: rapid.IntRange(1, 4).Draw(rt, "finalN"), Y: rapid.IntRange(0, 3).Draw(rt, "finalY")})
 	}
+	if len(sc.Bad) > 0 && rapid.IntRange(0, 2).Draw(rt, "finalBad") == 0 {
+		// a refused call racing with the final round of emits and the Close of everything
+		sc.FinalBursts = append(sc.FinalBursts, action{K: "bad", B: rapid.IntRange(0, len(sc.Bad)-1).Draw(rt, "finalBadWhich"), Y: rapid.IntRange(0, 3).Draw(rt, "finalBadY")})
+	}
 	sc.FinalY = rapid.SliceOfN(rapid.SampledFrom([]int{0, 0, 1, 2, 4}), 1, 6).Draw(rt, "finalYields")
 	return sc
 }
@@ -238,6 +319,9 @@ func specString(sc *scenario) string {
 	fmt.Fprintf(&b, "st=%v w=%d em=%v pre=%d/%d", sc.Stateful, sc.Workers, sc.Ems, sc.PreEms, sc.PreSubs)
 	for _, s := range sc.Subs {
 		fmt.Fprintf(&b, " %s%v/%d/%v", s.Kind, s.Types, s.Buf, s.Eager)
+	}
+	for _, bad := range sc.Bad {
+		fmt.Fprintf(&b, " !%v", bad)
 	}
 	for _, st := range sc.Steps {
 		fmt.Fprintf(&b, " @%d", st.GapMs)
@@ -264,11 +348,25 @@ func runCase(t *testing.T, rt *rapid.T, name string, sc *scenario) *result {
 		}
 	}()
 	defer close(done)
-	hx.Bubble(t, rt, func() { res = runScenario(sc) })
+	res = bubbleRun(t, rt, sc, "")
 	record(name, sc, res)
 	if res.failure != "" {
 		rt.Fatalf("%s\nexecuted steps: %s", res.failure, res.trace)
 	}
+	return res
+}
+
+// bubbleRun runs sc in a fresh bubble. When the run failed and left an Emit blocked for good
+// (the bubble then cannot shut down, which hx.Bubble reports in its own words), the failure
+// of the oracle is raised inside the bubble so that it is the one that gets reported.
+func bubbleRun(t *testing.T, rt *rapid.T, sc *scenario, ctx string) *result {
+	var res *result
+	hx.Bubble(t, rt, func() {
+		res = runScenario(sc)
+		if res.failure != "" && res.stuck {
+			rt.Fatalf("%s%s (and the Emit stays blocked although every subscription is drained)\nexecuted steps: %s", ctx, res.failure, res.trace)
+		}
+	})
 	return res
 }
 
@@ -375,8 +473,7 @@ func enumerateBlocked(t *testing.T, rt *rapid.T, name string) {
 									step{GapMs: 1, Acts: []action{{K: "resume", S: 0}}})
 							}
 							sc.FinalBursts = []action{{K: "emit", W: 0, E: 0, N: 2}, {K: "emit", W: 1, E: 1, N: 2}}
-							var res *result
-							hx.Bubble(t, rt, func() { res = runScenario(sc) })
+							res := bubbleRun(t, rt, sc, fmt.Sprintf("kind=%s buf=%d gap=%d resolve=%s stateful=%v withEager=%v: ", kind, buf, gap, resolve, stateful, withEager))
 							stats.CaseEnumerated(name, res.nontrivial, res.labels...)
 							if stats.WantSample(name) {
 								stats.Sample(name, map[string]any{"scenario": sc, "executed": res.trace, "labels": res.labels})
@@ -395,6 +492,124 @@ func enumerateBlocked(t *testing.T, rt *rapid.T, name string) {
 								rt.Fatalf("kind=%s buf=%d resolve=%s: harness: the burst of cap+2 events never stalled (executed: %s)", kind, buf, resolve, res.trace)
 							}
 						}
+					}
+				}
+			}
+		}
+	}
+}
+
+// TestRefusedCallsEnumerated enumerates the calls the bus has to refuse completely over
+// their small shape space: every offending element (4 non-pointer values, the wildcard) at
+// every position of every list of 0-3 well-formed types (2 orders), option errors for typed,
+// multi-type and wildcard Subscribe and for Emitter (option order, Stateful present or not),
+// Emitter for non-pointers and the wildcard; every BufSize; types stateful or not; the call
+// made once or three times at one instant. Around the call: one emitter per type that has
+// already emitted once (retained event), an eager subscriber to all three types, a slow
+// wildcard subscriber with room for everything; afterwards every emitter emits 2 more events
+// than the refused call asked buffer for, all bursts at the same instant. The ordinary
+// oracles decide: every Emit returns (nothing but a real subscriber may stall it), the eager
+// subscriber has received everything once and in order, the slow one has everything queued.
+func TestRefusedCallsEnumerated(t *testing.T) {
+	name := t.Name()
+	hx.Check(t, 1, 1, 0, func(rt *rapid.T) { enumerateRefused(t, rt, name) })
+	stats.Exhaustive(name)
+}
+
+func refusedSpecs() []badSpec {
+	var out []badSpec
+	lists := [][]int{{}, {0}, {1, 0}, {2, 1}, {0, 1, 2}, {2, 0, 1}}
+	for _, l := range lists {
+		for pos := 0; pos <= len(l); pos++ {
+			for val := 0; val < 4; val++ {
+				out = append(out, badSpec{Call: "sub", Why: "nonptr", Types: l, Pos: pos, Val: val})
+				if len(l) == 0 {
+					out = append(out, badSpec{Call: "sub", Why: "nonptr", Types: l, Pos: pos, Val: val, Bare: true})
+				}
+			}
+			if len(l) > 0 {
+				out = append(out, badSpec{Call: "sub", Why: "wildcard", Types: l, Pos: pos})
+			}
+		}
+		for _, first := range []bool{false, true} {
+			if len(l) == 0 {
+				out = append(out, badSpec{Call: "sub", Why: "opt", Wild: true, OptFirst: first})
+				continue
+			}
+			out = append(out, badSpec{Call: "sub", Why: "opt", Types: l, OptFirst: first})
+			if len(l) == 1 {
+				out = append(out, badSpec{Call: "sub", Why: "opt", Types: l, OptFirst: first, Bare: true})
+			}
+		}
+	}
+	for typ := 0; typ < nTypes; typ++ {
+		for _, st := range []bool{false, true} {
+			for val := 0; val < 4; val++ {
+				out = append(out, badSpec{Call: "em", Why: "nonptr", Types: []int{typ}, Val: val, Stateful: st})
+			}
+			out = append(out, badSpec{Call: "em", Why: "wildcard", Types: []int{typ}, Stateful: st})
+			for _, first := range []bool{false, true} {
+				out = append(out, badSpec{Call: "em", Why: "opt", Types: []int{typ}, Stateful: st, OptFirst: first})
+			}
+		}
+	}
+	return out
+}
+
+func enumerateRefused(t *testing.T, rt *rapid.T, name string) {
+	idx := 0
+	for _, stateful := range []bool{false, true} {
+		for _, spec := range refusedSpecs() {
+			bufs := []int{0, 1, 2, 16, -1}
+			if spec.Call == "em" {
+				bufs = []int{-1} // an emitter has no buffer
+			}
+			for _, buf := range bufs {
+				for _, times := range []int{1, 3} {
+					idx++
+					if !hx.Mine(idx) {
+						continue
+					}
+					spec.Buf = buf
+					sc := &scenario{Workers: 3, Ems: []int{0, 1, 2}, PreEms: 3, PreSubs: 2, Bad: []badSpec{spec},
+						Subs: []subSpec{{Kind: "multi", Types: []int{0, 1, 2}, Buf: 1, Eager: true}, {Kind: "wild", Buf: 16}}}
+					sc.Stateful = [nTypes]bool{stateful, stateful, stateful}
+					// the slow wildcard subscriber has room for exactly what is emitted: 3*(1+n+1) <= 16 holds for n <= 3 only;
+					// beyond that it is resumed together with the big bursts
+					n := spec.capacity() + 2
+					sc.Steps = append(sc.Steps, step{Acts: []action{{K: "emit", W: 0, E: 0, N: 1}, {K: "emit", W: 1, E: 1, N: 1}, {K: "emit", W: 2, E: 2, N: 1}}})
+					var calls []action
+					for k := 0; k < times; k++ {
+						calls = append(calls, action{K: "bad", B: 0, Y: k})
+					}
+					sc.Steps = append(sc.Steps, step{GapMs: 1, Acts: calls})
+					burst := []action{{K: "emit", W: 0, E: 0, N: n}, {K: "emit", W: 1, E: 1, N: n}, {K: "emit", W: 2, E: 2, N: n}}
+					if 3*(n+2) > 16 {
+						burst = append([]action{{K: "resume", S: 1}}, burst...)
+					}
+					sc.Steps = append(sc.Steps, step{GapMs: 1, Acts: burst})
+					sc.FinalBursts = []action{{K: "emit", W: 0, E: 0, N: 1}, {K: "emit", W: 1, E: 1, N: 1}, {K: "bad", B: 0}}
+					res := bubbleRun(t, rt, sc, fmt.Sprintf("refused call %v stateful=%v times=%d: ", spec, stateful, times))
+					stats.CaseEnumerated(name, res.nontrivial, res.labels...)
+					if stats.WantSample(name) {
+						stats.Sample(name, map[string]any{"scenario": sc, "executed": res.trace, "labels": res.labels})
+					}
+					if res.failure != "" {
+						rt.Fatalf("refused call %v stateful=%v times=%d: %s\nexecuted: %s", spec, stateful, times, res.failure, res.trace)
+					}
+					// the enumeration is only meaningful if the calls were made and the traffic followed
+					made, emitted := 0, false
+					for _, l := range res.labels {
+						if l == "refused:"+spec.class() {
+							made++
+						}
+						if strings.HasPrefix(l, "dropped:") {
+							rt.Fatalf("refused call %v stateful=%v times=%d: harness: an action of the enumeration was not executed (%s; executed: %s)", spec, stateful, times, l, res.trace)
+						}
+					}
+					emitted = res.emits == 3*(1+n)+2
+					if made == 0 || !emitted {
+						rt.Fatalf("refused call %v: harness: enumeration not executed as written (made=%d emits=%d; executed: %s)", spec, made, res.emits, res.trace)
 					}
 				}
 			}
